@@ -165,6 +165,8 @@ def make_unwind(cfg, may_known, type_prefix='Storage'):
             spec = fspec.fns.get(f.key)
             if spec is not None and spec.kind == 'externbody':
                 continue
+            if f.key in getattr(log, 'undecided', {}):
+                continue
             body_m = msk[f.body_open:f.body_close + 1]
             sites = []
             for (s, e, kind, t, name) in classify_sites(body_m, cur_type, known_types):
